@@ -408,3 +408,203 @@ Proof.
       unfold ekey. cbn [snd fst]. symmetry. destruct CLN as [NU [TR [NM _]]]. destruct HC as [W _].
       apply os_exists_false_nofile; assumption.
 Qed.
+
+(* ---------- one operation ---------- *)
+Definition post (f : fs) (u : list entry) (s' : st) (r : option N) : Prop :=
+  match r with
+  | None => C (s_fs s') (s_undo s') /\ forall p, expect (s_undo s') (s_fs s') p = expect u f p
+  | Some _ => forall p, file_at (revert true [] (s_fs s') (s_undo s')) p = expect u f p
+  end.
+
+Lemma os_read_exists f t b : os_read f t = Ok b -> os_exists f t = true.
+Proof.
+  unfold os_read, os_exists. destruct (pre_err f t); [discriminate|].
+  destruct (lookup f (t_path t)) as [[x|]|]; try discriminate. destruct (t_trail t); try discriminate. reflexivity.
+Qed.
+
+Definition undo_shape (f : fs) (u : list entry) (raw : list N) (u1 : list entry) : Prop :=
+  (In (comps raw) (keys u) /\ u1 = u) \/
+  (~ In (comps raw) (keys u) /\
+   ((exists b, os_read f (mk_tgt [] raw) = Ok b /\ u1 = u ++ [(raw, Some b)]) \/
+    (os_exists f (mk_tgt [] raw) = false /\ u1 = u ++ [(raw, None)]))).
+
+Lemma shape_none f u raw u1 : os_exists f (mk_tgt [] raw) = false -> undo_shape f u raw u1 ->
+  (In (comps raw) (keys u) /\ u1 = u) \/ (~ In (comps raw) (keys u) /\ u1 = u ++ [(raw, None)]).
+Proof.
+  intros X [H|[NI [[b [RD _]]|[_ E]]]]; [left; exact H| |right; split; assumption].
+  apply os_read_exists in RD. congruence.
+Qed.
+
+Lemma shape_some f u raw u1 b0 : os_exists f (mk_tgt [] raw) = true -> lookup f (comps raw) = Some (File b0) ->
+  undo_shape f u raw u1 ->
+  (In (comps raw) (keys u) /\ u1 = u) \/ (~ In (comps raw) (keys u) /\ u1 = u ++ [(raw, Some b0)]).
+Proof.
+  intros X LK [H|[NI [[b [RD E]]|[X' _]]]]; [left; exact H| |congruence].
+  right. split; [exact NI|]. apply os_read_ok in RD. destruct RD as [_ [_ L]]. congruence.
+Qed.
+
+Lemma phase1_fail f u raw u1 p : C f u -> os_exists f (mk_tgt [] raw) = true -> undo_shape f u raw u1 ->
+  file_at (revert true [] f u1) p = expect u f p.
+Proof.
+  intros HC X [[_ ->]|[NI [[b [RD ->]]|[X' _]]]]; [apply revert_spec; exact HC| |congruence].
+  apply os_read_ok in RD. destruct RD as [CLN [PD L]].
+  eapply touch_fail; try eassumption. right. reflexivity.
+Qed.
+
+Lemma phase2_fail f u raw u1 f2 p : C f u -> os_exists f (mk_tgt [] raw) = false -> undo_shape f u raw u1 ->
+  fs_wf f2 -> ext f f2 -> file_at (revert true [] f2 u1) p = expect u f p.
+Proof.
+  intros HC X SH W2 E. apply (fail_ext f u f2 u1 raw p HC W2 E).
+  destruct (shape_none _ _ _ _ X SH) as [[_ ->]|[_ ->]]; [left; reflexivity|right; split; [reflexivity|exact X]].
+Qed.
+
+Lemma exec_inv f u o s' r : C f u -> exec [] {| s_fs := f; s_undo := u |} o = (s', r) -> post f u s' r.
+Proof.
+  intros HC. pose proof HC as [W _].
+  assert (TRIV : post f u {| s_fs := f; s_undo := u |} (Some 0) ) by (intros q; apply revert_spec; exact HC).
+  destruct o as [p content|p|p mv hs]; cbn [exec]; unfold tg; cbn [s_fs s_undo].
+  - (* Add *)
+    destruct (os_exists f (mk_tgt [] p)) eqn:X; [intros H; inversion H; subst; exact TRIV|].
+    destruct (record_undo [] _ p) as [s1|e] eqn:RU; [|intros H; inversion H; subst; exact TRIV].
+    apply record_undo_cases in RU. destruct RU as [F1 U1]. destruct s1 as [f1 u1]. cbn [s_fs s_undo with_fs] in *. subst f1.
+    fold (undo_shape f u p u1) in U1.
+    destruct (mk_parent_dirs f (mk_tgt [] p)) as [f2 [e|]] eqn:MK;
+      apply mk_parent_dirs_spec in MK; try exact W; destruct MK as [W2 E2].
+    { intros H; inversion H; subst. intros q. cbn [s_fs s_undo]. eapply phase2_fail; eassumption. }
+    destruct (os_write f2 (mk_tgt [] p) content) as [f3|e] eqn:WR.
+    2:{ intros H; inversion H; subst. intros q. cbn [s_fs s_undo]. eapply phase2_fail; eassumption. }
+    intros H; inversion H; subst. cbn [post s_fs s_undo].
+    apply os_write_ok in WR. destruct WR as [CLN [PD2 [L2 ->]]]. pose proof CLN as [_ [_ [_ KN]]].
+    apply (create_ok f u p); try assumption.
+    + apply (shape_none f); assumption.
+    + apply wf_set_file; assumption.
+    + eapply dirs_le_trans; [apply ext_dirs; exact E2|apply dirs_le_set_file; assumption].
+    + eapply pdirs_mono; [apply dirs_le_set_file; eassumption|exact PD2].
+    + intros q N. rewrite file_at_set in N by exact KN. destruct (path_eqb (comps p) q) eqn:E; peq; [right; right; congruence|].
+      left. rewrite <- (ext_files _ _ E2). exact N.
+    + intros q _ NE. rewrite file_at_set by exact KN. apply path_eqb_false in NE. rewrite path_eqb_sym, NE. apply (ext_files _ _ E2).
+  - (* Delete *)
+    destruct (os_exists f (mk_tgt [] p)) eqn:X; cbn [negb]; [|intros H; inversion H; subst; exact TRIV].
+    destruct (record_undo [] _ p) as [s1|e] eqn:RU; [|intros H; inversion H; subst; exact TRIV].
+    apply record_undo_cases in RU. destruct RU as [F1 U1]. destruct s1 as [f1 u1]. cbn [s_fs s_undo with_fs] in *. subst f1.
+    fold (undo_shape f u p u1) in U1.
+    destruct (os_remove_file f (mk_tgt [] p)) as [f2|e] eqn:RM.
+    2:{ intros H; inversion H; subst. intros q. cbn [s_fs s_undo]. eapply phase1_fail; eassumption. }
+    intros H; inversion H; subst. cbn [post s_fs s_undo].
+    apply os_remove_ok in RM. destruct RM as [CLN [PD [[b0 L0] ->]]]. pose proof CLN as [_ [_ [_ KN]]].
+    apply (touch_ok f u p b0); try assumption.
+    + eapply shape_some; eassumption.
+    + eapply wf_unset_file; eassumption.
+    + eapply dirs_le_unset_file; eassumption.
+    + intros q NE. rewrite file_at_unset by exact KN. apply path_eqb_false in NE. rewrite path_eqb_sym, NE. reflexivity.
+  - (* Update *)
+    destruct (os_exists f (mk_tgt [] p)) eqn:X; cbn [negb]; [|intros H; inversion H; subst; exact TRIV].
+    destruct (record_undo [] _ p) as [s1|e] eqn:RU; [|intros H; inversion H; subst; exact TRIV].
+    apply record_undo_cases in RU. destruct RU as [F1 U1]. destruct s1 as [f1 u1]. cbn [s_fs s_undo with_fs] in *. subst f1.
+    fold (undo_shape f u p u1) in U1.
+    assert (FAIL1 : forall e, post f u {| s_fs := f; s_undo := u1 |} (Some e)).
+    { intros e q. cbn [s_fs s_undo]. eapply phase1_fail; eassumption. }
+    destruct (os_read f (mk_tgt [] p)) as [b|e] eqn:RD; [|intros H; inversion H; subst; apply FAIL1].
+    destruct (utf8_ok b); cbn [negb]; [|intros H; inversion H; subst; apply FAIL1].
+    destruct (apply_hunks_to_text b hs) as [b'|]; [|intros H; inversion H; subst; apply FAIL1].
+    destruct (os_write f (mk_tgt [] p) b') as [f2|e] eqn:WR; [|intros H; inversion H; subst; apply FAIL1].
+    apply os_read_ok in RD. destruct RD as [CLN [PD L0]]. pose proof CLN as [_ [_ [_ KN]]].
+    apply os_write_ok in WR. destruct WR as [_ [_ [_ ->]]].
+    assert (SH1 : (In (comps p) (keys u) /\ u1 = u) \/ (~ In (comps p) (keys u) /\ u1 = u ++ [(p, Some b)]))
+      by (eapply shape_some; eassumption).
+    assert (W2 : fs_wf (set f (comps p) (File b'))) by (apply wf_set_file; [exact W|exact KN|exact PD|congruence]).
+    assert (P1 : C (set f (comps p) (File b')) u1 /\ forall q, expect u1 (set f (comps p) (File b')) q = expect u f q).
+    { apply (touch_ok f u p b); try assumption.
+      - apply dirs_le_set_file; [exact KN|congruence].
+      - intros q NE. rewrite file_at_set by exact KN. apply path_eqb_false in NE. rewrite path_eqb_sym, NE. reflexivity. }
+    destruct P1 as [HC2 EQ1].
+    destruct mv as [q|]; [|intros H; inversion H; subst; cbn [post s_fs s_undo]; split; assumption].
+    set (f2 := set f (comps p) (File b')) in *.
+    assert (INP : In (comps p) (keys u1)).
+    { destruct SH1 as [[I ->]|[_ ->]]; [exact I|]. rewrite keys_app. apply in_or_app. right. left. reflexivity. }
+    assert (TRIV2 : forall e, post f u {| s_fs := f2; s_undo := u1 |} (Some e)).
+    { intros e x. cbn [s_fs s_undo]. rewrite <- EQ1. apply revert_spec. exact HC2. }
+    destruct (os_exists f2 (mk_tgt [] q)) eqn:XQ; [intros H; inversion H; subst; apply TRIV2|].
+    destruct (record_undo [] _ q) as [s3|e] eqn:RU3; [|intros H; inversion H; subst; apply TRIV2].
+    apply record_undo_cases in RU3. destruct RU3 as [F3 U3]. destruct s3 as [f3 u3]. cbn [s_fs s_undo with_fs] in *. subst f3.
+    fold (undo_shape f2 u1 q u3) in U3.
+    destruct (mk_parent_dirs f2 (mk_tgt [] q)) as [f4 [e|]] eqn:MK;
+      apply mk_parent_dirs_spec in MK; try exact W2; destruct MK as [W4 E4].
+    { intros H; inversion H; subst. intros x. cbn [s_fs s_undo]. rewrite <- EQ1. eapply phase2_fail; eassumption. }
+    destruct (os_rename_file f4 (mk_tgt [] p) (mk_tgt [] q)) as [f5|e] eqn:RN.
+    2:{ intros H; inversion H; subst. intros x. cbn [s_fs s_undo]. rewrite <- EQ1. eapply phase2_fail; eassumption. }
+    intros H; inversion H; subst. cbn [post s_fs s_undo].
+    apply os_rename_ok in RN. destruct RN as [_ [PDS [CLQ [PDQ [LQ [b2 [LS ->]]]]]]].
+    pose proof CLQ as [_ [_ [_ KQ]]].
+    assert (WU : fs_wf (unset f4 (comps p))) by (eapply wf_unset_file; eassumption).
+    assert (DU : dirs_le f4 (unset f4 (comps p))) by (eapply dirs_le_unset_file; eassumption).
+    assert (LQ' : lookup (unset f4 (comps p)) (comps q) <> Some Dir).
+    { rewrite lookup_unset by exact KN. destruct (path_eqb (comps p) (comps q)); [discriminate|exact LQ]. }
+    assert (DS : dirs_le (unset f4 (comps p)) (set (unset f4 (comps p)) (comps q) (File b2)))
+      by (apply dirs_le_set_file; assumption).
+    assert (R2 : C (set (unset f4 (comps p)) (comps q) (File b2)) u3 /\
+                 forall x, expect u3 (set (unset f4 (comps p)) (comps q) (File b2)) x = expect u1 f2 x).
+    { apply (create_ok f2 u1 q); try assumption.
+      - apply (shape_none f2); assumption.
+      - apply wf_set_file; try assumption. eapply pdirs_mono; eassumption.
+      - eapply dirs_le_trans; [apply ext_dirs; exact E4|]. eapply dirs_le_trans; eassumption.
+      - eapply pdirs_mono; [|exact PDQ]. eapply dirs_le_trans; eassumption.
+      - intros x N. rewrite file_at_set in N by exact KQ. destruct (path_eqb (comps q) x) eqn:E; peq; [right; right; congruence|].
+        rewrite file_at_unset in N by exact KN. destruct (path_eqb (comps p) x); [congruence|].
+        left. rewrite <- (ext_files _ _ E4). exact N.
+      - intros x NI NE. rewrite file_at_set by exact KQ. apply path_eqb_false in NE. rewrite path_eqb_sym, NE.
+        rewrite file_at_unset by exact KN. destruct (path_eqb (comps p) x) eqn:E; peq; [subst; contradiction|].
+        apply (ext_files _ _ E4). }
+    destruct R2 as [HC5 EQ2]. split; [exact HC5|]. intros x. rewrite EQ2. apply EQ1.
+Qed.
+
+(* ---------- every operation sequence, every failure position ---------- *)
+Lemma run_inv : forall ops f u s' r, C f u -> run [] {| s_fs := f; s_undo := u |} ops = (s', r) -> post f u s' r.
+Proof.
+  induction ops as [|o ops IH]; intros f u s' r HC; cbn [run].
+  - intros H; inversion H; subst. cbn [post s_fs s_undo]. split; [exact HC|reflexivity].
+  - destruct (exec [] _ o) as [s1 [e|]] eqn:E; apply exec_inv in E; try exact HC.
+    + intros H; inversion H; subst. exact E.
+    + cbn [post] in E. destruct E as [HC1 EQ1]. destruct s1 as [f1 u1]. cbn [s_fs s_undo] in *.
+      intros H. apply IH in H; [|exact HC1]. destruct r as [e|]; cbn [post] in *.
+      * intros p. rewrite H. apply EQ1.
+      * destruct H as [A B]. split; [exact A|]. intros p. rewrite B. apply EQ1.
+Qed.
+
+Lemma C_init f : fs_wf f -> C f [].
+Proof.
+  intros W. split; [exact W|]. split; [constructor|]. split; [intros e []|].
+  intros u1 raw b u2 E. destruct u1; discriminate.
+Qed.
+
+Theorem apply_ops_atomic f ops g e : fs_wf f ->
+  apply_ops true [] f ops = Failed g e -> forall p, file_at g p = file_at f p.
+Proof.
+  intros W. unfold apply_ops. destruct (run [] _ ops) as [s [err|]] eqn:RN; [|discriminate].
+  intros H; inversion H; subst. apply run_inv in RN; [|apply C_init; exact W]. exact RN.
+Qed.
+
+Theorem apply_patch_atomic f input g e : fs_wf f ->
+  apply_patch true [] f input = Failed g e -> forall p, file_at g p = file_at f p.
+Proof.
+  intros W. unfold apply_patch. destruct (parse_patch input) as [ops|].
+  - apply apply_ops_atomic. exact W.
+  - intros H; inversion H; subst. reflexivity.
+Qed.
+
+(* a successful apply keeps the workspace a well-formed tree (so patches can be chained) *)
+Theorem apply_ops_wf f ops g c : fs_wf f -> apply_ops true [] f ops = Applied g c -> fs_wf g.
+Proof.
+  intros W. unfold apply_ops. destruct (run [] _ ops) as [s [err|]] eqn:RN; [discriminate|].
+  intros H; inversion H; subst. apply run_inv in RN; [|apply C_init; exact W]. destruct RN as [[A _] _]. exact A.
+Qed.
+
+(* the revert restores files only: directories created on the way stay (they hold no file) *)
+Theorem failed_keeps_dirs_refuted :
+  exists f input g e p, fs_wf f /\ apply_patch true [] f input = Failed g e /\ lookup f p = None /\ lookup g p = Some Dir.
+Proof.
+  exists [], (intercalate [10] [bs "*** Begin Patch"; bs "*** Add File: d/x"; bs "+1"; bs "*** Delete File: nope"; bs "*** End Patch"]),
+         [([bs "d"], Dir)], ENOENT, [bs "d"].
+  split; [split; [constructor|split; [intros []|intros x s n L Hs; destruct x; [reflexivity|destruct s; [congruence|cbn in L; discriminate]]]]|].
+  split; [vm_compute; reflexivity|]. split; vm_compute; reflexivity.
+Qed.
